@@ -218,6 +218,178 @@ func methodsCase(engine string) map[string]any {
 		"per_endpoint": pe}
 }
 
+
+// genHistory: a history for one long-lived stack (scen19.RunHistory), drawn from r.  Endpoint statuses evolve from step
+// to step (an endpoint goes down, stays down for a few steps, recovers), every traffic step draws its own behaviours,
+// client count, family (single / concurrent / gated / abort / translator), request path and size; in between, silences
+// of minutes to hours, clean-up passes and health-check flaps.
+//
+// The olla engine keeps a breaker per endpoint that opens after 5 consecutive failed round trips and stays open for a
+// while: rt is an upper bound of each endpoint's consecutive failed round trips so far, and a behaviour that fails the
+// round trip is drawn for an endpoint only while the bound stays below the threshold (the breaker-open behaviour has
+// its own scenarios on fresh stacks).
+func genHistory(r *vlib.Rng, engine, bal string, nsteps int, thorough bool) *scen19.History {
+	h := &scen19.History{Engine: engine, Balancer: bal, Names: names, Prios: []int{100, 100, 100}}
+	if bal == "priority" {
+		h.Prios = prios
+	}
+	if r.Chance(1, 4) {
+		for range names {
+			h.BasePaths = append(h.BasePaths, vlib.Pick(r, []string{"/", "/api/", "", "/"}))
+		}
+	}
+	h.Discovery = r.Chance(1, 3)
+	status := []string{"", "", ""}
+	rt := []int{0, 0, 0}
+	rtFail := func(k string) bool {
+		return k == "refuse" || k == "reset0" || k == "close0" || k == "garbage" || k == "hdr-reset" || k == "hdr-close"
+	}
+	aborts := 0
+	all := append(append([]string{}, answers...), faults...)
+	trMixes := [][]string{{"ok"}, {"ok4xx"}, {"ok5xx"}, {"refuse"}, {"close0"}, {"refuse", "ok"}, {"refuse", "ok5xx"}, {"body-close"}, {"body-reset"}, {"hdr-close"}}
+	for len(h.Steps) < nsteps {
+		switch x := r.Intn(20); {
+		case x < 4:
+			h.Steps = append(h.Steps, scen19.HStep{Op: "silence", Minutes: vlib.Pick(r, []int{1, 4, 6, 30, 59, 61, 61, 90, 240})})
+			continue
+		case x < 6:
+			h.Steps = append(h.Steps, scen19.HStep{Op: "pass", Minutes: vlib.Pick(r, []int{4, 6, 61})})
+			continue
+		case x < 7 && h.Discovery:
+			h.Steps = append(h.Steps, scen19.HStep{Op: "flap"})
+			for i := range status { // every endpoint passed its last check
+				status[i] = ""
+			}
+			continue
+		}
+		// health transitions since the last step
+		for i := range status {
+			if status[i] == "" {
+				if r.Chance(1, 4) {
+					status[i] = vlib.Pick(r, []string{"offline", "unhealthy"})
+				}
+			} else if r.Chance(1, 3) {
+				status[i] = ""
+			}
+		}
+		if status[0] != "" && status[1] != "" && status[2] != "" && r.Chance(3, 4) {
+			status[r.Intn(3)] = ""
+		}
+		sc := &scen19.Scenario{Engine: engine, Balancer: bal, Route: "proxy", Clients: 1}
+		family := "single"
+		switch x := r.Intn(20); {
+		case x < 8:
+		case x < 13:
+			family, sc.Clients = "concurrent", 2+r.Intn(map[bool]int{false: 7, true: 15}[thorough])
+		case x < 18:
+			family, sc.Clients, sc.Gated = "gated", 2+r.Intn(map[bool]int{false: 7, true: 15}[thorough]), true
+		case x < 19 && aborts < map[bool]int{false: 1, true: 3}[thorough]:
+			family = "abort"
+			aborts++
+		default:
+			family = "translator"
+		}
+		if engine == "olla" && sc.Clients > 4 {
+			sc.Clients = 2 + sc.Clients%3 // leaves room for failing behaviours under the breaker's threshold
+		}
+		healthy := []int{}
+		for i := range names {
+			if status[i] == "" {
+				healthy = append(healthy, i)
+			}
+		}
+		kinds := make([]string, len(names))
+		switch family {
+		case "abort":
+			sc.Abort = true
+			for i := range names {
+				chunked := r.Bool()
+				e := scen.EPSpec{Name: names[i], Prio: h.Prios[i], Status: status[i]}
+				e.Beh = scen.FaultBeh(names[i], "body-stall", 4000, 2000, chunked, map[bool]string{false: "application/json", true: "text/event-stream"}[chunked])
+				e.Beh.StallMs = 700
+				sc.EPs = append(sc.EPs, e)
+				kinds[i] = "body-stall"
+			}
+		case "translator":
+			stream := r.Bool()
+			sc.Route = map[bool]string{false: "anthropic", true: "anthropic-stream"}[stream]
+			mix := vlib.Pick(r, trMixes)
+			for i := range names {
+				k := "ok"
+				if i < len(mix) {
+					k = mix[i]
+				}
+				if engine == "olla" && rtFail(k) && rt[i]+sc.Clients > 4 {
+					k = "ok"
+				}
+				e := trEP(i, k, stream)
+				e.Prio = h.Prios[i]
+				if i < len(mix) {
+					status[i] = "" // the mix's endpoints take the request, the others are down for this step
+				} else if status[i] == "" {
+					status[i] = "offline"
+				}
+				e.Status = status[i]
+				sc.EPs = append(sc.EPs, e)
+				kinds[i] = k
+			}
+		default:
+			for i := range names {
+				k := "ok"
+				if !r.Chance(1, 2) {
+					k = vlib.Pick(r, all)
+				}
+				if sc.Gated && !holding(k) && status[i] == "" && (bal != "priority" || len(healthy) > 0 && healthy[0] == i) {
+					k = vlib.Pick(r, []string{"ok", "ok5xx", "hdr-reset", "body-close", "shortcl"}) // whoever may be selected first must be reachable
+				}
+				if engine == "olla" && rtFail(k) && rt[i]+sc.Clients > 4 {
+					k = "ok"
+				}
+				e := mkEP(i, k, r, bal)
+				e.Status = status[i]
+				sc.EPs = append(sc.EPs, e)
+				kinds[i] = k
+			}
+			sc.Path = vlib.Pick(r, []string{"", "", "/v1/completions", "/v1/embeddings", "/api/generate"})
+			if r.Chance(1, 3) {
+				sc.Pad = 1 + r.Intn(20000)
+			}
+			if sc.Gated {
+				if h.Discovery && r.Chance(1, 5) {
+					sc.Flap = true
+				}
+				if r.Chance(1, 4) {
+					sc.UptimeMin = vlib.Pick(r, []int{6, 61})
+				}
+			}
+		}
+		// the breaker's view after this step
+		healthy = healthy[:0]
+		for i := range names {
+			if status[i] == "" {
+				healthy = append(healthy, i)
+			}
+		}
+		for i := range names {
+			if status[i] != "" {
+				continue
+			}
+			if rtFail(kinds[i]) {
+				rt[i] += sc.Clients
+			} else if len(healthy) == 1 || bal == "priority" && healthy[0] == i {
+				rt[i] = 0 // every request of the step makes a round trip to it that succeeds
+			}
+		}
+		if sc.Flap {
+			for i := range status {
+				status[i] = ""
+			}
+		}
+		h.Steps = append(h.Steps, scen19.HStep{Op: "traffic", Sc: sc})
+	}
+	return h
+}
+
 func main() {
 	tier := vlib.Tier()
 	r := vlib.NewRng(vlib.Seed())
@@ -379,22 +551,67 @@ func main() {
 			}
 		}
 	}
+	// histories on long-lived stacks (not in a single-scenario replay)
+	var hists []*scen19.History
+	if vlib.ReplayPath() == "" {
+		hr := r.Fork()
+		per, steps := 5, 16
+		if tier == "thorough" {
+			per, steps = 16, 32
+		}
+		for _, engine := range []string{"sherpa", "olla"} {
+			for _, bal := range []string{"priority", "round-robin", "least-connections"} {
+				for k := 0; k < per; k++ {
+					hists = append(hists, genHistory(hr.Fork(), engine, bal, steps+hr.Intn(steps/2), tier == "thorough"))
+				}
+			}
+		}
+	}
+	// VERIF_C19_ONLY=history (a debugging aid): the same histories as in a full run, nothing else
+	only := os.Getenv("VERIF_C19_ONLY")
+	if only == "history" {
+		scs, fam = nil, nil
+	}
 	out := make([]*scen19.Obs, len(scs))
 	scen.ParallelMap(len(scs), 12, func(i int) { out[i] = scen19.Run(scs[i]) })
+	hout := make([]*scen19.HistObs, len(hists))
+	scen.ParallelMap(len(hists), 6, func(i int) { hout[i] = scen19.RunHistory(hists[i]) })
 	for i, sc := range scs {
 		c.Count(fam[i] + "." + sc.Engine + "." + sc.Balancer + ".c" + strconv.Itoa(sc.Clients))
 		c.Emit(map[string]any{"kind": "counters", "family": fam[i], "scenario": sc, "impl": out[i]})
 	}
+	for i, h := range hists {
+		c.Count("history." + h.Engine + "." + h.Balancer)
+		c.Emit(map[string]any{"kind": "history", "engine": h.Engine, "balancer": h.Balancer, "history": h, "impl": hout[i]})
+	}
+	if vlib.ReplayPath() == "" {
+		cr := r.Fork()
+		nh, nops := 8, 400
+		if tier == "thorough" {
+			nh, nops = 40, 1500
+		}
+		for k := 0; k < nh; k++ {
+			nEP := []int{3, 8, 20, 60, 75, 5, 51, 120}[k%8]
+			c.Emit(map[string]any{"kind": "collector-history", "impl": collectorHistory(cr.Fork(), nEP, nops)})
+			c.Count(fmt.Sprintf("collector-history.%d", nEP))
+		}
+	}
 	for _, engine := range []string{"sherpa", "olla"} {
+		if only == "history" {
+			break
+		}
 		c.Emit(map[string]any{"kind": "methods", "engine": engine, "impl": methodsCase(engine)})
 		c.Count("methods." + engine)
 	}
 	for _, engine := range []string{"sherpa", "olla"} {
 		for _, bal := range []string{"least-connections", "priority"} {
+			if only == "history" {
+				break
+			}
 			c.Emit(map[string]any{"kind": "bursts", "engine": engine, "balancer": bal, "impl": burstCase(engine, bal, map[bool]int{false: 250, true: 2500}[tier == "thorough"], 8, 3)})
 			c.Count("bursts." + engine + "." + bal)
 		}
 	}
 	c.Close(map[string]any{"exhaustive": true,
-		"exhaustive_note": "one client: all 14 single behaviours and (priority balancer) all 11x14 (failing first, anything second) pairs per engine, pairs sampled 1/4 on round-robin / least-connections (all in thorough), triples sampled; 16 and 64 clients: every single behaviour ungated and gated, pairs sampled; client abort x 2 framings x 3 balancers x 2 engines; Anthropic route buffered + streaming x 10 mixes"})
+		"exhaustive_note": "one client: all 14 single behaviours and (priority balancer) all 11x14 (failing first, anything second) pairs per engine, pairs sampled 1/4 on round-robin / least-connections (all in thorough), triples sampled; 16 and 64 clients: every single behaviour ungated and gated, pairs sampled; client abort x 2 framings x 3 balancers x 2 engines; Anthropic route buffered + streaming x 10 mixes; histories (long-lived stacks, one collector) are sampled from the seed, not exhaustive"})
 }
